@@ -97,6 +97,9 @@ func readFrameOfType(fType byte, reader *bufio.Reader, isTCP bool) (frame, error
 		data = data[:len(data)-1] // Trim \r
 		return cmdFrame(string(data)), nil
 	case 'd':
+		if len(data) < 5 {
+			return nil, fmt.Errorf("Data frame too short (%d bytes)", len(data))
+		}
 		return dFrame{dataType: string(data[2:5]), data: data[5:]}, nil
 	default:
 		panic("not possible")
